@@ -43,6 +43,17 @@ PROPS = {
         assumptions=["a directive with no value: any value accepted, the binding (name, arg, modifiers) is still checked",
                      "argument `undefined` equals no argument; `_mod` suffixes together with an array modifier list are not generated"],
     ),
+    "C05": dict(
+        mc=[dict(module="MC_C05")], judge="Judge_C05", want=["js"],
+        rule="hosts (input with no/checkbox/radio/other static type, dynamic type; select; textarea; div; bound and unbound "
+             "component) x targets (bound identifier, member, index, unbound identifier) x argument forms (none, :arg, string second "
+             "element, computed second element) x modifier forms (none, _suffix, array list, empty list) x mergeProps x optimize; "
+             "v-model beside other attributes/spreads/directives; v-models lists up to the bound with distinct targets. Every "
+             "onUpdate:* listener is fired with a sentinel and all targets are read back",
+        exhaustive=dict(quick=True, thorough=True),
+        assumptions=["v-model:arg on a form element: listener key onUpdate:modelValue or onUpdate:<arg> accepted",
+                     "v-model on a non-form element: any model directive accepted"],
+    ),
     "C02": dict(
         mc=[dict(module="MC_C02")], judge="Judge_C02", want=["js"],
         rule="TLC enumerates every JSX-text string over the symbol alphabet up to the length bound in every "
